@@ -56,6 +56,12 @@ CHECKS["C15"] = dict(engine="govm", technique="explicit-state model checking ove
 CHECKS["C01"] = dict(engine="govm", technique="bounded-exhaustive enumeration of calls (every corpus interface function x 1-deviation value products x context/status menus x outcomes x filter registrations) executed end to end on the real client and server stacks under the controlled scheduler, plus deviation-bounded exhaustive schedules for concurrent callers",
              text="The working-tree tars2go generates proxies and dispatchers for every interface function of the IDL corpus (169 functions quick); generated servants forward to a scripted handler. Real proxy -> ServantProxy -> AdapterProxy -> TarsClient -> in-memory TCP -> TarsServer -> tcpHandler -> Protocol -> generated Dispatch. Per function: every parameter / out parameter / return position over its value lattice, reused out variables, one-way; request/response context and status menus; plain and *tars.Error outcomes; all 8x8 client x server filter registrations with exact filter-order logs; 2-3 concurrent callers sharing a proxy under all schedules within 1-3 deviations (3 default policies).",
              note="Values are compared through an independent value model (verif/ref) with nil = empty containers and bit-exact floats; the deviation-bounded product covers one varied position at a time.", ref="§5 C01")
+CHECKS["C03"] = dict(engine="enum", technique="bounded-exhaustive enumeration of (struct, value) pairs over every struct of the framework bindings and of the generated IDL corpus (k-deviation products over value lattices), judged by an independent strict schema-directed decoder and wire-conformance walk",
+             text="24 framework structs + 653 (3116) corpus structs emitted by the working-tree tars2go; both baselines, every <=2 (3) member deviation over a small lattice and every single-member deviation over the full lattice: WriteTo/WriteBlock bytes must parse strictly, decode under the schema to the value, use admissible wire types, ascending unique tags, narrowest integers, required members present, and ReadFrom/ReadBlock into a fresh struct must return the value (nil = empty, floats by bits).",
+             note="Schemas come from the IDL (own reader / corpus metadata), never from the generated Go; which optionals are elided is not prescribed.", ref="§5 C03")
+CHECKS["C04"] = dict(engine="enum", technique="bounded-exhaustive mutation enumeration: every insertion (and pair) of a well-formed unknown field at every admissible position and nesting level, every member deletion, every ordered pair of encodings decoded into one reused value, judged against the reference decoder",
+             text="53 well-formed field shapes (all wire types, nested to depth 4, 255/256-element containers, extended tags, StructEnd-looking payloads) inserted at every gap of the top-level body and of nested structs/containers with every free tag class, singly and in pairs; exact consumption checked by a sentinel after ReadBlock; deletions of every optional/required member; reuse: decode A then B into the same value for all ordered baseline pairs.",
+             note="Reader position is read by reflection (codec.Reader has no accessor); arrays of structs without element defaults are accepted either way.", ref="§5 C04")
 NOT_YET = {}
 ALL = ["C%02d" % i for i in range(1, 21)]
 
